@@ -128,10 +128,10 @@ def run_model(items, wd, jobs=8, shard=300):
 
 def gen_spec(h):
     n = h.name
-    if n.startswith('x'):
+    if re.match(r'^x\d+:', n):
         v, w = n[1:].split(':', 1)
         return dict(type='exhaustive', variant=int(v), word=w.split(','), fmt=h.fmt)
-    if n.startswith('r'):
+    if re.match(r'^r\d+$', n):
         return dict(type='random', idx=int(n[1:]))
     return dict(type='directed', name=n)
 
